@@ -7,7 +7,8 @@ package main
 //   mdoDocBlocks            a saved package (independent reader) -> abstract blocks
 //   mdoMdBlocks             a Markdown text -> abstract blocks, through the reference CommonMark+GFM renderer of the
 //                           parser the library embeds (its XHTML output is parsed; nothing of the library under test)
-// Block = {k, lvl, toks:[{t,f}], rows:[[{toks}]]}, every field of one fixed JSON type.
+// Block = {k, lvl, toks:[{t,f}], rows:[[{toks}]]}, every field of one fixed JSON type; blocks of a saved package also
+// carry np (the paragraph has numbering properties).
 
 import (
 	"sort"
@@ -196,7 +197,9 @@ func mdoDocPara(c *mdoConc, p *Node) mdoM {
 	if k == "p" && p.Path("pPr", "numPr") != nil {
 		k = "li"
 	}
-	return mdoBlock(k, lvl, c.tokens(mdoParaSegs(p)))
+	m := mdoBlock(k, lvl, c.tokens(mdoParaSegs(p)))
+	m["np"] = p.Path("pPr", "numPr") != nil // carries numbering properties (whatever its style)
+	return m
 }
 
 func mdoDocBlocks(c *mdoConc, p *Pkg) []mdoM {
@@ -227,7 +230,7 @@ func mdoDocBlocks(c *mdoConc, p *Pkg) []mdoM {
 					}
 					rows = append(rows, row)
 				}
-				out = append(out, mdoM{"k": "tbl", "lvl": 0, "toks": []mdoTok{}, "rows": rows})
+				out = append(out, mdoM{"k": "tbl", "lvl": 0, "toks": []mdoTok{}, "rows": rows, "np": false})
 			case "sdt", "sdtContent", "customXml", "smartTag":
 				walk(k)
 			}
